@@ -89,6 +89,21 @@ def evaluate(case):
         base = {"F": 0.0, "FK": 0.0, "S": 1.0, "DCS": t}[Y]
         if exceeds(np.abs(np.asarray(out3[1]) - base)[pos].max(initial=0.0), 1e-9 * max(1.0, float(np.abs(gz).max()) * float(r.max()) ** 2 * 20 * kw["rho"])):
             fails.append(f"{name}: something is removed although g(r) vanishes on [0,cutoff]")
+    # the removed component IS the sine transform of the real-space signal on [0, cutoff]: T[r<=c, 4 pi rho r g(r)](Q), nothing else
+    if not case["lorch"] and not case["omitted"]:
+        cvv = impl.obj("Converter")
+        with np.errstate(all="ignore"):
+            g_in = gr if X == "g" else np.asarray(getattr(cvv, f"{X}_to_g")(r, gr, **kw)[0], dtype=float)
+            rem_f = rem if Y == "F" else np.asarray(getattr(cvv, f"{Y}_to_F")(q_ft, rem, **kw)[0], dtype=float)
+        m = (r >= 0.0) & (r <= cutoff)
+        rc, gc = r[m], g_in[m]
+        if len(rc) >= 1 and (X == "g" or (rc > 0).all()):
+            expect = np.array([np.trapezoid(4 * np.pi * kw["rho"] * rc * gc * np.sin(Qv * rc), x=rc) if len(rc) > 1 else 0.0 for Qv in q_ft])
+            okq = q_ft > 1e-100 if Y != "F" else np.ones_like(q_ft, dtype=bool)
+            scr = max(1.0, float(np.abs(expect).max()), float(np.abs(4 * np.pi * kw["rho"] * rc * gc).max()) * float(rc.max() - rc.min() + 1e-300))
+            if rem_f.shape == expect.shape and exceeds(np.abs(rem_f - expect)[okq].max(initial=0.0), 1e-8 * scr):
+                fails.append(f"{name}: the removed component is not the sine transform of the real-space signal on [0, cutoff] "
+                             f"(off by {np.abs(rem_f - expect)[okq].max():.3g})")
     # filtered real-space function = transform of the corrected function
     tr = impl.obj("Transformer")
     with np.errstate(all="ignore"):
